@@ -35,6 +35,10 @@ checks.update({
  "C11": ("model_checking", "complete enumeration: every candidate property expression x {u,v} x {\\p,\\P} for acceptance, every accepted expression over all scalar values for membership, a judged universe of 73k strings for properties of strings",
          "Acceptance of 42k candidate expressions equals the ES tables as implemented by V8; each of the 1,714 accepted expressions is matched over a haystack holding every scalar value and must denote exactly the ICU 78.2 (Unicode 17) set, \\P its complement; properties of strings are compared by membership over a universe of 73,056 judged strings.", "4 C11"),
 })
+checks.update({
+ "C07": ("exploration", "exhaustive enumeration of all short token / raw code point strings in-process, plus a finite family of size-parameterised shapes each in a resource-limited child process",
+         "Every string over a 34-token alphabet up to length 4 (5 thorough) and every raw code point string (surrogates, NUL, U+10FFFF) up to length 5 (6) x 7 flag sets must compile to Ok or Err under catch_unwind with a 10 s watchdog; 37 adversarial shapes x sizes up to 65536 (10^6 thorough) x {\"\",u,v} run in child processes (8 MiB / 2 MiB stacks): a stack-exhaustion abort, a panic or a timeout on a small input is a violation; runs cut by the harness's own memory / wall caps are reported as caps, not verdicts.", "4 C07"),
+})
 not_applicable = {
 }
 PENDING = "check not built yet in this round (planned in DESIGN.md section 10); nothing is claimed for it until it exists"
